@@ -851,9 +851,8 @@ Section Proofs.
   Proof.
     unfold ds_imul. destruct (Nat.ltb_spec (length (dmask a)) (length (dmask b))) as [|Hle]; [discriminate|].
     intros H. injection H as <-. unfold ds_matrix. simpl.
-    rewrite <- (pad_short (length (dmask b)) (dmask a) Hle) at 2.
-    rewrite dense_mul_matrix by (rewrite !pad_length; lia).
-    rewrite ipow_land, mask_xor_pad, vphase_pad. apply dense_matrix_coef_ext. ring.
+    rewrite dense_mul_matrix by (rewrite pad_length; lia).
+    rewrite ipow_land, mask_xor_pad, vphase_pad, (pad_short _ _ Hle). apply dense_matrix_coef_ext. ring.
   Qed.
   Theorem ds_scale_sound (a : dstr) c : ds_matrix O (ds_scale O a c) = mscale O c (ds_matrix O a).
   Proof. unfold ds_matrix, ds_scale. simpl. rewrite dense_matrix_scale. apply dense_matrix_coef_ext. ring. Qed.
